@@ -422,6 +422,9 @@ def check(P, R, tier):
     import diffdecode
     n = diffdecode.check_all(R, tu, "RF2-diff")
     R.floor("RF2-diff", "decoded points of the year/day, year/month/day and year/week/day differences", n, 3000000)
+    import mixdiff
+    nm = mixdiff.run_parallel(R, P, "RF2-mixdiff")
+    R.floor("RF2-mixdiff", "differences of date-times held in different representations", nm, 50000)
 
 
 LEVEL = ("Decides, for the year/day, year/month/day and year/week/day differences, the inverse law itself by decoding the routines over their whole domain (RF2-diff), and structural necessary conditions of `difference inverts addition`: operands are ordered first and the sign is "
